@@ -9,6 +9,7 @@
 #include "ref/parquet_reader.hpp"
 
 extern "C" int __lsan_do_recoverable_leak_check(void) __attribute__((weak));
+extern "C" size_t __sanitizer_get_current_allocated_bytes();
 
 using namespace pbt;
 
@@ -55,7 +56,7 @@ static rc::Gen<cw::W> tableW() {
     auto lv = pw::leaves(w.fs.root);
     w.codec = *rc::gen::element(0, 1, 2, 5, 6); w.page_size = *rc::gen::element<int64_t>(64, 256, 1 << 20); w.order = (uint32_t)*irange(1, 1 << 30); w.opts = *rc::gen::weightedOneOf<int>({{3, rc::gen::just(0)}, {2, irange(0, 15)}}); w.level = *rc::gen::element(0, 0, 1, 9, 19);
     for (int g = 0; g < 2; g++) {
-      size_t rows = (size_t)*rc::gen::weightedOneOf<int>({{5, irange(1, 25)}, {1, irange(40, 90)}});   // sometimes enough rows for ten and more small pages per chunk
+      size_t rows = (size_t)*rc::gen::weightedOneOf<int>({{5, irange(1, 25)}, {2, irange(40, 90)}});   // sometimes enough rows for ten and more small pages per chunk
       w.fs.rg_rows.push_back((int64_t)rows);
       std::vector<pw::ChunkSpec> rg; std::vector<std::vector<int>> pc; std::vector<int> nl;
       for (auto &lf : lv) {
@@ -106,7 +107,7 @@ static rc::Gen<S> genS() {
     if (kind == 0 || kind == 6) return rc::gen::map(irange(0, 140), [kind](int n) { S s; s.kind = kind; s.ncols = n; return s; });
     if (kind == 4) { gf::Opts o; o.max_cols = 3; o.max_rows = 20; o.max_rgs = 2; o.max_pages = 3; o.thrift_extras = false; o.layouts = false; o.stats = true;
       return rc::gen::map(rc::gen::tuple(gf::specGen(o), irange(0, 2), irange(1, 9)), [](const std::tuple<pw::FileSpec, int, int> &t) { S s; s.kind = 4; s.fs = std::get<0>(t); s.mode = std::get<1>(t); s.batch = std::get<2>(t); return s; }); }
-    return rc::gen::map(rc::gen::tuple(rc::gen::weightedOneOf<cw::W>({{6, tableW()}, {1, wideW()}}), irange(0, 2), rc::gen::weightedOneOf<int>({{4, irange(1, 9)}, {1, irange(30, 120)}})), [kind](const std::tuple<cw::W, int, int> &t) { S s; s.kind = kind; s.w = std::get<0>(t); s.mode = std::get<1>(t); s.batch = std::get<2>(t); s.ncols = 0; return s; });
+    return rc::gen::map(rc::gen::tuple(rc::gen::weightedOneOf<cw::W>({{6, tableW()}, {1, wideW()}}), irange(0, 2), rc::gen::weightedOneOf<int>({{3, irange(1, 9)}, {2, irange(30, 120)}})), [kind](const std::tuple<cw::W, int, int> &t) { S s; s.kind = kind; s.w = std::get<0>(t); s.mode = std::get<1>(t); s.batch = std::get<2>(t); s.ncols = 0; return s; });
   });
 }
 
@@ -212,18 +213,28 @@ static Verdict runS(const S &s) {
   if (!base_ok) { vd.vacuous = true; vd.label("fault_free_run_not_successful"); return vd; }
   long evals = 0, after_first = 0, errors = 0, successes = 0;
   for (long k = 0; k < K; k++) {
-    std::string eff; bool claimed = false;
-    why = sc(k, eff, claimed);
-    if (!g_hit) continue;
+    // "nor leaks": the number of live heap bytes after the scenario (all handles closed) equals the number before it.  Exact
+    // and attributable to this k, unlike the recoverable LeakSanitizer scan, which keeps re-reporting leaks of earlier
+    // cases and can be blinded by a stale pointer on the stack.
+    size_t h0 = __sanitizer_get_current_allocated_bytes();
+    bool hit = false, claimed = false, same = true; char whybuf[400] = {0};
+    {
+      std::string eff, w2;
+      w2 = sc(k, eff, claimed);
+      hit = g_hit;
+      snprintf(whybuf, sizeof whybuf, "%s", w2.c_str());
+      same = eff == base_effect;
+      if (hit && claimed && !same && getenv("C19_DUMP")) fprintf(stderr, "---- fault-free:\n%s\n---- with failure at %ld:\n%s\n", base_effect.c_str(), k, eff.c_str());
+    }
+    size_t h1 = __sanitizer_get_current_allocated_bytes();
+    if (!hit) continue;
     evals++;
-    PBT_CHECK(vd, why.empty(), "%s, allocation request %ld of %ld fails: %s", kn[s.kind], k, K, why.c_str());
-    if (claimed && eff != base_effect && getenv("C19_DUMP")) fprintf(stderr, "---- fault-free:\n%s\n---- with failure at %ld:\n%s\n", base_effect.c_str(), k, eff.c_str());
-    if (claimed) { successes++; PBT_CHECK(vd, eff == base_effect, "%s, allocation request %ld of %ld fails: the API reports success but the effect differs from the fault-free run", kn[s.kind], k, K); }
+    PBT_CHECK(vd, whybuf[0] == 0, "%s, allocation request %ld of %ld fails: %s", kn[s.kind], k, K, whybuf);
+    if (claimed) { successes++; PBT_CHECK(vd, same, "%s, allocation request %ld of %ld fails: the API reports success but the effect differs from the fault-free run", kn[s.kind], k, K); }
     else errors++;
     if (k > 2) after_first++;
-    if (__lsan_do_recoverable_leak_check && (k % 4 == 0 || K < 60)) PBT_CHECK(vd, __lsan_do_recoverable_leak_check() == 0, "%s, allocation request %ld of %ld fails: memory is leaked (LeakSanitizer report above)", kn[s.kind], k, K);
+    PBT_CHECK(vd, h1 <= h0, "%s, allocation request %ld of %ld fails: %zu heap bytes are still allocated after all handles were closed (leak)", kn[s.kind], k, K, h1 - h0);
   }
-  if (__lsan_do_recoverable_leak_check) PBT_CHECK(vd, __lsan_do_recoverable_leak_check() == 0, "%s: memory leaked after an allocation failure (LeakSanitizer report above)", kn[s.kind]);
   vd.evals = std::max<long>(1, evals); vd.nontrivial = after_first > 0;
   if (successes) vd.label("failure_tolerated_with_identical_effect");
   return vd;
